@@ -58,6 +58,8 @@ def pred_impl(name, t):
 
 
 TYPES = {'int': int, 'str': str, 'dict': dict}
+# outside Match a type is a callable spec like any other: it CONVERTS the target (these two never fail)
+CONVS = {'str': str, 'bool': bool}
 
 
 def build(term):
@@ -79,6 +81,8 @@ def build(term):
         return M(T[term[1]])
     if k == 'type':
         return TYPES[term[1]]
+    if k == 'conv':
+        return CONVS[term[1]]
     if k == 'lit':
         return term[1]
     if k == 'pred':
@@ -115,6 +119,8 @@ def build(term):
 def build_default(d):
     if 'lit' in d:
         return d['lit']
+    if 'cont' in d:
+        return {'got': T[d['cont']], 'l': [], 't': (T[d['cont']], 'lit')}      # a container default: rebuilt with its specs evaluated, like any argument
     return T[d['T']]
 
 
@@ -136,6 +142,12 @@ class PyErr(Exception):
 def ref_default(d, target):
     if 'lit' in d:
         return d['lit']
+    if 'cont' in d:
+        try:
+            v = target[d['cont']]
+        except (KeyError, IndexError, TypeError):
+            raise Reject('glom')
+        return {'got': v, 'l': [], 't': (v, 'lit')}
     try:
         return target[d['T']]
     except (KeyError, IndexError, TypeError):
@@ -191,6 +203,9 @@ def ref(term, target, mode, log):
             raise Reject('glom')
     if k == 'val':
         return term[1]
+    if k == 'conv':
+        assert mode == 'auto'
+        return CONVS[term[1]](target)
     if k == 'type':
         assert mode == 'match'
         if isinstance(target, TYPES[term[1]]):
@@ -353,13 +368,15 @@ def atoms(mode):
     for op in PYOPS:
         out.append(['MTT', 'k', op, 'j'])
     out.append(['MTT', 'k', '==', 'k'])
+    if mode == 'auto':
+        out += [['conv', 'str'], ['conv', 'bool']]
     if mode == 'match':
         out += [['type', 'int'], ['type', 'str'], ['type', 'dict'], ['lit', 3], ['lit', 'a'],
                 ['pred', 'pos'], ['pred', 'raises'], ['pred', 'none'], ['pred', 'true']]
     return out
 
 
-DEFAULTS = [None, {'lit': 'D'}, {'T': 'k'}]
+DEFAULTS = [None, {'lit': 'D'}, {'T': 'k'}, {'cont': 'k'}]
 
 
 def vector(term, mode):
@@ -411,7 +428,7 @@ def gen_terms(mode, depth, K):
                 for form in ('dict', 'list'):
                     if form == 'list' or build_hashable(a):
                         nxt.append(['switch', [[a, vals[0]]], dflt, form])
-            for b in kids[:12] + [x for x in kids[12:width] if x[0] in ('type', 'lit', 'pred')]:
+            for b in kids[:12] + [x for x in kids[12:width] if x[0] in ('type', 'lit', 'pred', 'conv')]:
                 nxt.append(['switch', [[a, vals[0]], [b, vals[1]]], None, 'list'])
                 nxt.append(['switch', [[a, vals[2]], [b, vals[1]]], {'lit': 'D'}, 'list'])
                 if build_hashable(a) and build_hashable(b) and a != b:
@@ -424,7 +441,7 @@ def gen_terms(mode, depth, K):
 
 
 def build_hashable(term):
-    return term[0] in ('M', 'Mr', 'MT', 'MTT', 'type', 'lit', 'pred')
+    return term[0] in ('M', 'Mr', 'MT', 'MTT', 'type', 'lit', 'pred', 'conv')
 
 
 def gen_cases(tier):
@@ -506,7 +523,7 @@ def gen_histories(tier):
         seen = set()
         for term in gen_terms(mode, depth, K):
             key = json.dumps(term)
-            if key in seen or term[0] in ('val', 'lit', 'type'):
+            if key in seen or term[0] in ('val', 'lit', 'type', 'conv'):
                 continue
             seen.add(key)
             for order in (('forward', 'reverse') if tier == 'quick' else ORDERS):
